@@ -5,6 +5,7 @@ import Ptn.C01.Compress
 import Ptn.C01.Cut
 import Ptn.C01.Fill
 import Ptn.C01.Value
+import Ptn.C01.Net
 /-! Property theorems for C01 (Hamiltonian → state diagram → operator is exact).  Only property theorems
 and non-vacuity examples live here; helper lemmas are in `Lemmas.lean`.
 
@@ -345,26 +346,34 @@ theorem base_ttno_value {R : Type} [CommSemiring R] (I : Interp R) (dimOf : Stri
   rw [treeVal_eq, ← fsumVal_hamDenote]
   exact fsumVal_perm I o n hp
 
-/-- **Two-node tree, flat network** (`…_partial`: the general tree is stated only in the nested form
-    `ttno_nested_value`; what is missing is the induction that turns `sumPairs` over all tree bonds into
-    the nested sums).  The `Ptn.Ein.netValue` of the two filled tensors over their single bond, as a
-    function of all (out, in) indices, is the entrywise value of the diagram's denotation. -/
-theorem ttno_network_value_two_node_partial {R : Type} [CommSemiring R] (I : Interp R)
-    (dimOf : String → Nat) (i nv c nv' : Nat) (hes hes' : List HE) (T : TTNO)
-    (h : fillTTNO dimOf (.node i nv hes [.node c nv' hes' []]) = some T)
-    (dim : Leg → Nat) (hd : dim (.dn c) = nv') (σ : Ptn.Ein.Asg Leg) :
+/-- **`ttno_network_value`** (every tree, flat network): instantiate the labels with matrices over a
+    commutative semiring; the filled tensors are the leaves `W_i[bond indices…, out_i, in_i]` (`nodeLeaf`), the
+    binding record is one pair (parent's leg `dn c`, child's leg `up c`) per tree edge.  If the node identifiers
+    are pairwise different and every bond leg has the bond's dimension, `Ptn.Ein.netValue` - the one big sum
+    over a common index per tree bond of the product of all leaves - equals, as a function of all
+    (out, in) indices, the entrywise value `Σ_terms coeff · Π_n A_{term,n}[out_n, in_n]` of the diagram's
+    denotation. -/
+theorem ttno_network_value {R : Type} [CommSemiring R] (I : Interp R) (dimOf : String → Nat) (d : SD)
+    (T : TTNO) (h : fillTTNO dimOf d = some T) (hnd : (treeIds T).Nodup) (dim : Leg → Nat)
+    (hdim : ∀ p ∈ T.bondsBelow, dim (.dn p.1) = p.2) (σ : Ptn.Ein.Asg Leg) :
     Ptn.Ein.netValue dim (treeBinds T) (treeLeaves I T) σ =
-      fsumVal I (fun j => σ (.out j)) (fun j => σ (.inn j))
-        (sdDenote (.node i nv hes [.node c nv' hes' []])) := by
-  rw [← ttno_nested_value I dimOf _ T h]
-  obtain ⟨h0, rest, ks, _, hks, _, rfl⟩ := fillAt_some dimOf true i nv hes _ T h
-  obtain ⟨a, as, ha, has, rfl⟩ := fillKids_some dimOf _ _ ks hks
-  rw [fillKids_nil] at has
-  cases has
-  obtain ⟨g0, grest, ks', _, hks', _, rfl⟩ := fillAt_some dimOf false c nv' hes' [] a ha
-  rw [fillKids_nil] at hks'
-  cases hks'
-  exact two_node_netValue I i c nv' _ _ _ _ dim hd σ
+      fsumVal I (fun j => σ (.out j)) (fun j => σ (.inn j)) (sdDenote d) := by
+  rw [← ttno_nested_value I dimOf d T h]
+  exact netValue_eq_treeVal I dim T hnd (fill_proper dimOf dim d true T h hdim) σ
+
+/-- The same for the uncompressed TTNO of every non-empty Hamiltonian on every tree: the flat network
+    evaluates to `Σ_k c_k γ_k Π_sites A_{k,site}[out_site, in_site]`. -/
+theorem base_ttno_network_value {R : Type} [CommSemiring R] (I : Interp R) (dimOf : String → Nat)
+    (t : RTree) (tm : Term) (rest : List Term) :
+    ∃ d T, baseDiagram t (tm :: rest) = some d ∧ fillTTNO dimOf d = some T ∧
+      ∀ (dim : Leg → Nat) (σ : Ptn.Ein.Asg Leg), (treeIds T).Nodup →
+        (∀ p ∈ T.bondsBelow, dim (.dn p.1) = p.2) →
+        Ptn.Ein.netValue dim (treeBinds T) (treeLeaves I T) σ =
+          hamVal I (fun j => σ (.out j)) (fun j => σ (.inn j)) t (tm :: rest) := by
+  obtain ⟨d, T, hd, hT, hval⟩ := base_ttno_value I dimOf t tm rest
+  refine ⟨d, T, hd, hT, fun dim σ hnd hdim => ?_⟩
+  rw [← hval]
+  exact netValue_eq_treeVal I dim T hnd (fill_proper dimOf dim d true T hT hdim) σ
 
 /-! ### Non-vacuity: concrete instances -/
 
@@ -434,11 +443,15 @@ example : sdDenote (.node 0 0 [⟨"A", 1, "1", none, [1]⟩] [.node 1 2 [⟨"B",
   decide +kernel
 
 -- value level: the interpretation `exInterp` (over ℚ) and the assignment `exSigma` are defined in `Value.lean`.
--- `ttno_network_value_two_node_partial` on the diagram where two hyperedges share one tensor position: the
+-- `ttno_network_value` on the diagram where two hyperedges share one tensor position: the
 -- hypotheses hold (the filling succeeds, the bond leg has dimension 2) and the value is a non-trivial number
 example : (fillTTNO (fun _ => 2) (.node 0 0 [⟨"A", 2, "g", none, [0]⟩, ⟨"B", 3, "1", none, [0]⟩, ⟨"C", 1, "1", none, [1]⟩]
       [.node 1 2 [⟨"X", 1, "1", some 0, []⟩, ⟨"Y", 5, "h", some 1, []⟩] []])).isSome = true ∧
     legDim (fun _ => 2) (fun _ => 2) (.dn 1) = 2 := by decide +kernel
+
+example : (fillTTNO (fun _ => 2) (.node 0 0 [⟨"A", 2, "g", none, [0]⟩, ⟨"B", 3, "1", none, [0]⟩, ⟨"C", 1, "1", none, [1]⟩]
+      [.node 1 2 [⟨"X", 1, "1", some 0, []⟩, ⟨"Y", 5, "h", some 1, []⟩] []])).map
+    (fun T => (decide (treeIds T).Nodup, T.bondsBelow)) = some (true, [(1, 2)]) := by decide +kernel
 
 example : fsumVal exInterp (fun j => exSigma (.out j)) (fun j => exSigma (.inn j))
     (sdDenote (.node 0 0 [⟨"A", 2, "g", none, [0]⟩, ⟨"B", 3, "1", none, [0]⟩, ⟨"C", 1, "1", none, [1]⟩]
@@ -452,5 +465,12 @@ example : (fillTTNO (fun _ => 2) (.node 0 0 [⟨"A", 2, "g", none, [0]⟩, ⟨"B
 
 -- `base_ttno_value` instance: the value of the two-term Hamiltonian on the branched example tree
 example : hamVal exInterp (fun j => j + 1) (fun j => 2 * j) exTree [exT1, exT2] = -32490 := by decide +kernel
+
+-- `base_ttno_network_value` instance on the branched tree (three bonds of dimension 2, four leaves): the hypotheses
+-- hold and the flat network evaluates to the value of the Hamiltonian
+example : ((baseDiagram exTree [exT1, exT2]).bind (fillTTNO fun _ => 2)).map
+    (fun T => (decide (treeIds T).Nodup, T.bondsBelow,
+      Ptn.Ein.netValue (legDim (fun _ => 2) (fun _ => 2)) (treeBinds T) (treeLeaves exInterp T) exSigma)) =
+    some (true, [(2, 2), (1, 2), (3, 2)], -32490) := by decide +kernel
 
 end Ptn.C01
